@@ -1026,6 +1026,7 @@ func (s *SecureChannel) SendRequestWithTimeout(ctx context.Context, req ua.Reque
 		s.pendingReq.Done()
 		return err
 	}
+	verifPoint("sc.send.afterInstance")
 
 	return s.sendPendingRequest(ctx, req, s.nextRequestID(), active, authToken, timeout, h)
 }
